@@ -253,7 +253,7 @@ Definition do_delete (cfg : config) (pol : policy) (s : store) (p : path) (im : 
     if negb im_ok then (s, (S412, PNone)) else
     match item with
     | NColl _ =>
-        if (if permit_delete cfg then check pol p ld (kind_of item) else negb (check pol p lD (kind_of item)))
+        if (if permit_delete cfg then has ld (pol p) else negb (has lD (pol p)))     (* the flags are tested literally *)
         then (s, (S403NA, PNone))
         else ((if is_root p then empty_store else del_subtree s p), (S200, PNone))   (* the root folder is re-created on the next access *)
     | NItem pc _ =>
